@@ -21,6 +21,9 @@ def run(ck):
         'absorbed before the first challenge; in R3 also: the buffer filled by read_exact is decoded unmodified.  These are necessary conditions of the property; '
         'collision resistance and the pairing algebra are not decided.')
     r1_absorb(ck, w)
+    from . import c01
+    c01.golden_rule(ck, w, 'C03.R9', 'A challenge squeezed before a message it must bind (e.g. the batching challenge x4 before the evaluations at x3) leaves that '
+                    'message malleable: a different proof string is accepted for the same statement, although prover, verifier and in-circuit verifier agree with each other.')
     r2_raw_cursor(ck, w)
     r3_checked_decoders(ck, w)
     r4_vk_identity(ck, w)
